@@ -10,6 +10,8 @@ R10.4 rotation / reflection helpers are orthogonal (rational parametrisation).
 
 from __future__ import annotations
 
+from fractions import Fraction
+
 import ast
 from types import SimpleNamespace
 
@@ -269,6 +271,7 @@ def rigid_rules(ctx):
 
 
 def run(ctx):
+    stored_frame_rule(ctx)
     # a re-oriented member / material gives the re-oriented response also on a simulation that was already assembled: no memo keyed by an object whose axes it reads
     from ..shared import memo_rule as _memo_rule, cached_param_rule as _cached_param_rule
 
@@ -290,3 +293,77 @@ def run(ctx):
     from . import c14
 
     c14.motion_notify_rule(ctx)
+
+
+def stored_frame_rule(ctx):
+    """R10.8: the frame a beam stores is orthonormal whatever vertical axis it is given: the yAxis setter is interpreted on
+    exact (rational / quadratic-surd) directions, the stored y axis must be a unit vector orthogonal to the fibre and
+    _Calc_P must return an orthogonal matrix (P P^T = I) -- members whose fibre is neither parallel nor perpendicular
+    to the given axis included."""
+    from types import SimpleNamespace
+
+    from ..alg import MQ
+    from ..xeval import FuncInfo, _Bound
+
+    repo = ctx.repo
+    r = ctx.rule("R10.8", "beam frame: for any given vertical axis the stored y axis is unit and orthogonal to the fibre, and _Calc_P is orthogonal (P P^T = I), on exact inclined directions", min_instances=4)
+    bm = repo.cls(BEAM_MODEL)
+    fset = bm.setters["yAxis"]
+    fP = bm.methods["_Calc_P"]
+
+    def normalize(v):
+        v = XArray.from_nested(v)
+        tot = Q(0)
+        for x in v.data:
+            tot = tot + x * x
+        if is_zero(tot):
+            return v
+        nrm = MQ.sqrt(tot) if isinstance(tot, (int, Fraction)) else tot ** Q(1, 2)
+        return XArray(v.shape, [x / nrm for x in v.data])
+
+    def hook(fn, args, kwargs):
+        fi = fn.finfo if isinstance(fn, _Bound) else fn if isinstance(fn, FuncInfo) else None
+        if fi is not None and fi.name == "Normalize":
+            return normalize(args[0])
+        if fi is not None and fi.name in ("AsCoords", "_"):
+            v = list(XArray.from_nested(args[0]).data)
+            return XArray((3,), v + [Q(0)] * (3 - len(v)))
+        return NotImplemented
+
+    cases = [
+        ((Q(1), Q(0), Q(0)), (Q(0), Q(1), Q(0))),
+        ((Q(3, 5), Q(4, 5), Q(0)), (Q(0), Q(1), Q(0))),
+        ((Q(3, 5), Q(4, 5), Q(0)), (Q(0), Q(3), Q(0))),
+        ((Q(2, 3), Q(2, 3), Q(1, 3)), (Q(0), Q(0), Q(1))),
+        ((Q(2, 3), Q(-1, 3), Q(2, 3)), (Q(1), Q(1), Q(0))),
+    ]
+    for fibre, given in cases:
+        r.instance(fn=fset.qualname + ".setter")
+        line = SimpleNamespace(unitVector=XArray((3,), list(fibre)))
+        obj = XObj(bm, {bm.mangle("__line"): line, "line": line, "Need_Update": lambda *a, **k: None, "name": "beam"})
+        I = Interp(repo, extra_builtins={"print": lambda *a, **k: None})
+        I.call_hook = hook
+        tag = f"fibre={[str(x) for x in fibre]},given={[str(x) for x in given]}"
+        try:
+            I.call_function(fset, [XArray((3,), list(given))], self_obj=obj)
+            y = XArray.from_nested(obj.attrs[bm.mangle("__yAxis")])
+            P = XArray.from_nested(I.call_function(fP, [], self_obj=obj))
+        except XRaise as e:
+            r.fail(fset.qualname + ".setter", "frame", fset.file, fset.lineno, "_Beam.yAxis.setter", f"{tag}: raises {e}")
+            continue
+        problems = []
+        yy = sum((a * a for a in y.data), Q(0))
+        yx = sum((a * b for a, b in zip(y.data, fibre)), Q(0))
+        if not is_zero(yy - 1):
+            problems.append(f"|yAxis|^2 = {yy}")
+        if not is_zero(yx):
+            problems.append(f"yAxis . fibre = {yx}")
+        for a in range(3):
+            for b in range(3):
+                v = sum((P[a, k] * P[b, k] for k in range(3)), Q(0))
+                if not is_zero(v - (1 if a == b else 0)):
+                    problems.append(f"(P P^T)[{a},{b}] = {v}")
+        if problems:
+            r.fail(fset.qualname + ".setter", "frame-not-orthonormal", fset.file, fset.lineno, "_Beam.yAxis.setter", f"{tag}: {problems[0]} (and {len(problems) - 1} more): the local transverse displacement and the bending stiffness are scaled by the length of the stored axis - the response of a member depends on its inclination")
+        else:
+            r.ok(f"{tag}: orthonormal frame")
